@@ -505,7 +505,8 @@ class SourceGenerator(NodeVisitor):
             self.visit(arg)
         for keyword in node.keywords:
             write_comma()
-            self.write(keyword.arg + "=")
+            # f(**d) is a keyword without a name
+            self.write("**" if keyword.arg is None else keyword.arg + "=")
             self.visit(keyword.value)
         if getattr(node, "starargs", None):
             write_comma()
